@@ -108,6 +108,13 @@ def run(chk: common.Check):
         path = c16.custom_cfg(ch, extra_lines=extra)
         cfgs.append(path)
         cases.append((f"1HPX.pdb with {ch or list(extra)}", structures.read("1HPX.pdb"), ["-p", path]))
+    # every switch (0 / 1 setting) of the CURRENT parameter file, toggled one at a time: whatever a switch selects, the analysis only observes
+    import re as _re
+    for m_ in _re.finditer(r"(?m)^([A-Za-z_]\w*)[ \t]+([01])[ \t]*(?:#.*)?$", (common.REPO / "propka" / "propka.cfg").read_text()):
+        ch = {m_.group(1): str(1 - int(m_.group(2)))}
+        path = c16.custom_cfg(ch)
+        cfgs.append(path)
+        cases.append((f"1HPX.pdb with switch {ch}", structures.read("1HPX.pdb"), ["-p", path]))
     # the pKa window of the pair screen moved across existing pairs: one member inside, one outside [min_pka, max_pka]
     for nm, ch in [("3SGB.pdb", {"max_pka": "10.5"}), ("1HPX.pdb", {"min_pka": "4.5", "max_pka": "9.0"})] + \
                   ([("3SGB.pdb", {"max_pka": "10.8"}), ("1FTJ-Chain-A.pdb", {"max_pka": "10.5"}), ("1HPX.pdb", {"min_pka": "5.5"}), ("4DFR.pdb", {"max_pka": "10.4"})] if chk.thorough else []):
